@@ -615,10 +615,27 @@ class TimeTriggeredPlanValidator(engines.engine.Engine, mixins.PlanValidatorMixi
                 )
                 next_id += 1
 
-        for invariant in problem.state_invariants:
+        # State invariants and bounded types (as in the UPSequentialSimulator) must hold
+        # in every state of the trace, the final one included (end = None).
+        invariants: List[FNode] = list(problem.state_invariants)
+        bound_invariants: Set[FNode] = set()
+        for fluent in problem.fluents:
+            f_type = fluent.type
+            if not (f_type.is_int_type() or f_type.is_real_type()):
+                continue
+            lower_bound, upper_bound = f_type.lower_bound, f_type.upper_bound  # type: ignore [attr-defined]
+            if lower_bound is None and upper_bound is None:
+                continue
+            for f_e in up.model.fluent.get_all_fluent_exp(problem, fluent):
+                if lower_bound is not None:
+                    bound_invariants.add(em.LE(lower_bound, f_e))
+                if upper_bound is not None:
+                    bound_invariants.add(em.LE(f_e, upper_bound))
+        invariants.extend(sorted(bound_invariants, key=str))
+        for invariant in invariants:
             durative_conditions.append(
                 (
-                    (Fraction(0), plan_duration, False),
+                    (Fraction(0), None, False),
                     next_id,
                     invariant,
                     None,
@@ -776,7 +793,8 @@ class TimeTriggeredPlanValidator(engines.engine.Engine, mixins.PlanValidatorMixi
                         state=state, se=se, condition=c
                     )
                 except UPStateMissingFluentError:
-                    is_satisfied = False
+                    # an undefined fluent trivially respects the bounds of its type
+                    is_satisfied = c in bound_invariants
 
                 if not is_satisfied:
                     if opt_ai is not None:
